@@ -55,7 +55,7 @@ WidthOf(C, e) ==
 SignedOf(C, e) ==
   CASE e.k = "f"    -> TypeOfPath(C.W, AbsP(C.own, e.p)).s
     [] e.k = "it"   -> ElemRefType(C.W, C.bind[e.v].l, e.p).s
-    [] e.k = "ix"   -> FALSE
+    [] e.k = "ix"   -> TRUE      \* a foreach index is an 'int' (signed 32 bit), as in SystemVerilog
     [] e.k = "sub"  -> ElemRefType(C.W, AbsP(C.own, e.l), e.p).s
     [] e.k = "lit"  -> e.s
     [] e.k = "bin"  -> SignedOf(C, e.l) /\ SignedOf(C, e.r)
